@@ -575,6 +575,14 @@ class Exec:
                     if func is not self.f or self.defblock.get(base['n']) in loop_['body']:
                         return 'fresh'
                 return (hn, None)
+            if xtd['k'] == 'ptr' and self.prog.under(xtd['elem'])['k'] == 'array':
+                # element of an array reached through a pointer (e.g. the packed arguments of a variadic call)
+                hn, _ = vc.elem_heap(vc.sort_of(self.prog.under(xtd['elem'])['elem']))
+                base = d['x']
+                if base['k'] == 'reg' and defs.get(base['n'], {}).get('op') == 'Alloc':
+                    if func is not self.f or self.defblock.get(base['n']) in loop_['body']:
+                        return 'fresh'
+                return (hn, None)
             return 'all'
         if d['op'] == 'Alloc':
             if func is not self.f or self.defblock.get(addr['n']) in loop_['body']:
@@ -1333,6 +1341,13 @@ class Exec:
             ev = self.spec(env, self.st, self.entry_state, self.entry_env)
             g = self.eval_clause(ev, cl, 'callsite requires', 'goal')
             self.oblige('callsite', '%s: %s' % (nm, cl.text), self.reach, g.term, cl.tags, ins.get('line', 0), skolems=ev.skolems)
+            # assert-then-assume: later obligations may rely on the fact established here (a cut point)
+            ev2 = self.spec(env, self.st, self.entry_state, self.entry_env)
+            n0 = len(self.vc.assumes)
+            g2 = self.eval_clause(ev2, cl, 'callsite requires', 'assume', self.reach)
+            self.vc.assume(g2.term, self.reach)
+            if 'cut' in cl.tags:
+                self.vc.cut = (n0, self.vc.cur_block)
 
     def fresh_results(self, ins, rtypes=None):
         vc = self.vc
@@ -1633,6 +1648,7 @@ def verify_function(vc, func, contract):
     # vacuity guard: the precondition must be satisfiable
     o = vc.oblige('cover', 'pre', 'precondition is satisfiable', 'true', 'true', [], func.line)
     o.expect = 'sat'
+    vc.entry_nassume = len(vc.assumes)
     rets = ex.run(args, st, 'true')
     vc.cur_block = None
     if rets:
